@@ -1240,7 +1240,11 @@ def evaluate_log_F_ext(
             )
             if num_F_ext_evaluations <= 0:
                 evaluations = _evaluate_log_F_ext_using_lmfit(**evaluation_kwargs)
-            elif num_procs > 1:
+            elif num_procs > 1 and test != "cnls":
+                # The CNLS implementation already distributes its fits across
+                # multiple processes and the (daemonic) worker processes of a
+                # pool are not allowed to have child processes of their own.
+                #
                 # TODO: Figure out why this causes a RuntimeError related to
                 # the matplotlib window. Tends to happen when using the CLI and
                 # several windows have been shown. The same doesn't happen when,
